@@ -546,7 +546,20 @@ def const_fold(fn, n, depth=0):
             return const_fold(fn, fn.node(bm[x.d["d"]]), depth + 1)
         if x.cv() is not None:
             return x.cv()
+        if x.get("local") and not _reassigned_local(fn, x.d.get("d")):
+            # a once-initialised local whose initialiser folds
+            for m in fn.all_nodes():
+                if m.kind == "DeclStmt":
+                    for d in m.get("decls", []):
+                        if d.get("d") == x.d.get("d") and "init" in d:
+                            return const_fold(fn, fn.node(d["init"]), depth + 1)
         return None
+    if x.kind == "ConditionalOperator" and len(x.children) == 3:
+        c_ = const_fold(fn, x.children[0], depth + 1)
+        if c_ is not None:
+            return const_fold(fn, x.children[1 if c_ else 2], depth + 1)
+        a_, b_ = const_fold(fn, x.children[1], depth + 1), const_fold(fn, x.children[2], depth + 1)
+        return a_ if a_ is not None and a_ == b_ else None
 
     def wrap(v):
         bits = x.get("bits")
@@ -568,6 +581,18 @@ def const_fold(fn, n, depth=0):
             return wrap({"+": a + b, "-": a - b, "*": a * b, "<<": a << b, ">>": a >> b, "&": a & b, "|": a | b}[x.op])
         except (ValueError, OverflowError):
             return None
+    if x.kind == "BinaryOperator" and x.op in ("&&", "||"):
+        # short-circuit: `false && e` and `true || e` are constants whatever e is
+        a, b = const_fold(fn, x.children[0], depth + 1), const_fold(fn, x.children[1], depth + 1)
+        for v in (a, b):
+            if v is not None and ((x.op == "&&" and not v) or (x.op == "||" and v)):
+                return int(bool(v))
+        if a is None or b is None:
+            return None
+        return int(bool(a) and bool(b)) if x.op == "&&" else int(bool(a) or bool(b))
+    if x.kind == "UnaryOperator" and x.op == "!" and x.children:
+        a = const_fold(fn, x.children[0], depth + 1)
+        return None if a is None else int(not a)
     if x.kind == "UnaryOperator" and x.op in ("~", "-", "+") and x.children:
         a = const_fold(fn, x.children[0], depth + 1)
         if a is None:
